@@ -2,12 +2,13 @@ package raft
 
 // C08 / C10 / C11: the first configuration a node adopts (Raft.bootstrap), with a crash anywhere inside it.
 
-//verif:check C08,C10,C11 stubs=env,valuefile,abslog,snapfs,restart reach=bootstrapped,rejected,already,crash,restarted,end desc="Raft.bootstrap with an arbitrary requested configuration: accepted only on a node that has no configuration yet, only if the node itself is a voter of it and no action is pending in it (so the first configuration retains a voter); the entry is stored at index 1 and flushed, term 1 is durable before the node becomes candidate; a crash at any storage boundary inside it followed by the real openStorage starts successfully either un-bootstrapped (empty log) or with exactly that configuration" bounds="n<=3 nodes with symbolic voter flags and actions; node id 1..3; crash at any storage-operation boundary or none"
+//verif:check C08,C10,C11 stubs=env,valuefile,abslog,snapfs,restart reach=bootstrapped,rejected,already,crash,restarted,end desc="Raft.bootstrap with an arbitrary requested configuration: accepted only on a node that has no configuration yet, only if the node itself is a voter of it and no action is pending in it (so the first configuration retains a voter); the entry is stored at index 1 and flushed, a term of at least 1 (never lower than the node's term) is durable before the node becomes candidate; a crash at any storage boundary inside it followed by the real openStorage starts successfully either un-bootstrapped (empty log) or with exactly that configuration" bounds="n<=3 nodes with symbolic voter flags and actions; node id 1..3; any term/vote the node has seen before; crash at any storage-operation boundary or none"
 func VH_C08_bootstrap() {
 	n := 1 + vChoice(3)
 	nid := uint64(1 + vChoice(3))
 	r := vMkRaft(nid)
-	vDiskInit(".term", 0, 0)
+	// a node that is not bootstrapped yet can already have seen terms and voted (it answers vote requests)
+	vSymTermState(r)
 	l, a := vNewLog(0)
 	r.storage.log = l
 	r.fsm.FSM = &vFSM{}
@@ -24,6 +25,7 @@ func VH_C08_bootstrap() {
 		nc.Nodes[id] = nd
 	}
 	t := changeConfig{task: newTask(), newConf: nc}
+	t0 := r.term
 	vCrashArmed = true
 	crashed := vRunToCrash(func() { r.bootstrap(t) })
 	if !crashed {
@@ -39,7 +41,7 @@ func VH_C08_bootstrap() {
 			vAssert(r.configs.Latest.Index == 1 && r.configs.Latest.Term == 1 && len(r.configs.Latest.Nodes) == n, "B-adopted-at-index-1")
 			vAssert(a.last() == 1 && a.flushed == 1 && r.lastLogIndex == 1 && r.lastLogTerm == 1, "B-entry-stored-and-flushed")
 			dt, _ := vDurable(".term")
-			vAssert(dt == 1 && r.term == 1, "B-term-1-durable")
+			vAssert(dt >= 1 && dt >= t0 && r.term == dt, "B-term-at-least-1-durable-and-never-lowered")
 			vAssert(r.state == Candidate, "B-node-campaigns")
 		} else {
 			vReach("rejected")
